@@ -510,10 +510,15 @@ def _native_sweep(script, rule, n_quick, n_thorough):
 
 
 PROPS['C03'] = dict(
-    modules=['contracts.dtw_py', 'contracts.dtw_c'],
+    modules=['contracts.dtw_py', 'contracts.dtw_c', 'contracts.pruning_py', 'contracts.ed_c', 'contracts.bounds_c', 'contracts.bounds_py'],
     contracts=['dtw.distance#maxdist', 'dtw.warping_paths#maxdist', 'dd_dtw.c::dtw_distance_euclidean#maxdist',
                'dd_dtw.c::dtw_distance#maxdist', 'dd_dtw.c::dtw_distance_ndim_euclidean#maxdist',
-               'dd_dtw.c::dtw_distance_ndim#maxdist'],
+               'dd_dtw.c::dtw_distance_ndim#maxdist',
+               # use_pruning: the bound handed to the engines (value pinned; validity of the bound is C09's sandwich)
+               'dtw.DTWSettings.for_dtw#pruning', 'ed.distance',
+               'dd_ed.c::euclidean_distance', 'dd_ed.c::euclidean_distance_euclidean', 'dd_ed.c::euclidean_distance_ndim',
+               'dd_ed.c::euclidean_distance_ndim_euclidean', 'dd_dtw.c::ub_euclidean', 'dd_dtw.c::ub_euclidean_euclidean',
+               'dd_dtw.c::ub_euclidean_ndim', 'dd_dtw.c::ub_euclidean_ndim_euclidean'],
     lemmas=['CellAbove', 'RowAboveLeft', 'RowAboveRight', 'AgreeStep', 'RowAllInf', 'RowLeadInf', 'InnerNdNonneg'],
     bounded={'early-abandoning-native-sweep': _native_sweep(
         'pruning_native.py',
@@ -530,7 +535,8 @@ PROPS['C03'] = dict(
                'warping_paths with square-rooted output: a distance below the user bound is returned unchanged (the final test there '
                'is on the square-rooted value; what is returned above the bound is bounded-sweep only). Loop invariant: every buffer '
                'cell either equals W or both are above the bound; columns left of sc and right of ec are above the bound in W. '
-               'All other routes (C cost-matrix routines, distance matrices, use_pruning, psi) are bounded sweeps only.',
+               'use_pruning: the value of the bound is pinned by contract (for_dtw#pruning, ed.distance, C euclidean_distance* / '
+               'ub_euclidean*). All other routes (C cost-matrix routines, distance matrices, psi) are bounded sweeps only.',
     level_note='The proof speaks about the internal bound (max_dist squared for the squared-Euclidean inner distance): the '
                'property excludes a rounding-width neighbourhood of the true distance, and the contract avoids it by '
                'comparing accumulated costs with the adjusted bound exactly as the code does. Trusted: dvc Python semantics '
@@ -544,7 +550,10 @@ PROPS['C03'] = dict(
                  'C cost-matrix routines with max_dist: bounded only',
                  'dtw.warping_paths(max_dist) with the squared inner distance and keep_int_repr=False: the final test compares a '
                  'square-rooted value with the user bound (sqrt/square round trip, excluded by the property): bounded only',
-                 'use_pruning (bound taken from ub_euclidean): bounded only; its upper-bound argument is C09',
+                 'use_pruning: the bound is under contract (DTWSettings.for_dtw#pruning sets inner_val of ed.distance with the same inner '
+                 'distance; ed.distance, the four C euclidean_distance* and ub_euclidean* routines are code = padded Euclidean sum); '
+                 'that the bound is valid is C09 (Lean sandwich); the composition with the abandoning proof at a bound equal to the '
+                 'distance (sqrt/square round trip, KF-C03-3) and the C kernels reading settings->use_pruning stay bounded',
                  'max_dist together with psi relaxation: bounded only (KF-C03-* live there)',
                  'distance matrices with max_dist: bounded only'],
     technique='sidecar contract on the real dtw.distance (AST re-read every run), weakest-precondition style VCs discharged by '
